@@ -24,9 +24,9 @@ pub mod syn {
         #[verifier::external_body] pub fn new<T>(span: super::proc_macro2::Span, message: T) -> Error { unimplemented!() }
         #[verifier::external_body] pub fn new_spanned<T, U>(tokens: T, message: U) -> Error { unimplemented!() }
     }
-    #[verifier::external_body] pub struct Type { _p: u8 }
+    #[verifier::external_body] #[derive(PartialEq, Eq, Hash)] pub struct Type { _p: u8 }
     #[verifier::external_body] pub struct Expr { _p: u8 }
-    #[verifier::external_body] pub struct Path { _p: u8 }
+    #[verifier::external_body] #[derive(PartialEq, Eq, Hash)] pub struct Path { _p: u8 }
     #[verifier::external_body] pub struct WherePredicate { _p: u8 }
     #[verifier::external_body] pub struct ItemEnum { _p: u8 }
     #[verifier::external_body] pub struct Attribute { _p: u8 }
